@@ -53,6 +53,17 @@ def check_C14(chk):
                         root = scenario(rng, pos, j, before, arm, how, others_fail=(j == 0 and pos == 0))
                         cases.append((root, rep, mode))
                         envs.append({"CGREEN_PER_TEST_TIMEOUT": "1"} if arm == "env" else {})
+    # a second limit set late: the test is already under a limit of 2 s, calls die_in(2) in the last second before
+    # that limit runs out, and keeps running: it must still be stopped
+    for mode, first in (("forked", "env"), ("inproc", "die_in"), (("single", 2), "env")):
+        body = [("c", 1), ("raw", "sleep 1400"), ("raw", "die_in 2"), ("raw", "spin"), ("c", 1)]
+        if first == "die_in":
+            body.insert(0, ("raw", "die_in 2"))
+        t = L.Test(2, body=body)
+        t.model_kill = (3, "exit", status)
+        t.model_body = [("c", 1), ("c", 1)]
+        root = L.Suite(0, children=[L.Test(1, body=[("c", 1)]), t, L.Test(3, body=[("c", 1)])])
+        cases.append((root, "text", mode)); envs.append({"CGREEN_PER_TEST_TIMEOUT": "2"} if first == "env" else {})
     # in time: the limit is set and nobody overruns
     for mode in ("forked", "inproc", ("single", 2)):
         root = L.Suite(0, children=[L.Test(1, body=[("c", 1)]), L.Test(2, body=[("c", 1), ("raw", "sleep 50"), ("c", 1)]), L.Test(3, body=[("c", 1)])])
